@@ -12,6 +12,7 @@ import ast
 import collections
 import re
 import signal
+import sys
 
 import hypothesis.strategies as st
 
@@ -154,7 +155,7 @@ def make_ns():
       raise StepLimit()
     log.append(s)
 
-  def t(x=None, *a, **k):
+  def t(x=0, *a, **k):
     emit('t %s' % _r(x))
     return x
 
@@ -206,10 +207,24 @@ def run_src(src, inp, fname='f'):
   """Executes fname(*inp) from src on a fresh runtime. Returns {'outcome', 'log', 'state'}."""
   ns, log, o = make_ns()
   old = signal.signal(signal.SIGALRM, _alarm)
-  signal.alarm(3)
+  signal.alarm(120)  # safety net only; the deterministic bound is the line budget below
+  budget = [60000]
+
+  def local_trace(frame, event, arg):
+    if event == 'line':
+      budget[0] -= 1
+      if budget[0] < 0:
+        raise StepLimit()
+    return local_trace
+
+  def global_trace(frame, event, arg):
+    return local_trace if frame.f_code.co_filename == '<c18>' else None
+
   try:
     try:
-      exec(compile(src, '<c18>', 'exec'), ns)
+      code = compile(src, '<c18>', 'exec')
+      exec(code, ns)
+      sys.settrace(global_trace)
       v = ns[fname](*inp)
       n = 0
       while callable(v) and n < 3:
@@ -227,6 +242,7 @@ def run_src(src, inp, fname='f'):
         name = 'NameError'
       outcome = ['exc', name, _r(e.args) if isinstance(e, E1) else '']
   finally:
+    sys.settrace(None)
     signal.alarm(0)
     signal.signal(signal.SIGALRM, old)
   state = [_r(o.__dict__.get('x')), _r(o.sub.__dict__.get('x'))]
@@ -703,8 +719,9 @@ def run_case(case):
   for inp in case['inputs']:
     a = run_src(src, inp)
     b = run_src(src2, inp)
-    if a['outcome'][0] in ('timeout', 'steplimit'):
-      info['generator_slip'] = 'original does not terminate'
+    if a['outcome'][0] in ('timeout', 'steplimit') or b['outcome'][0] == 'timeout':
+      # step limit = deterministic line/effect budget; timeout = wall-clock safety net (never evidence)
+      info['generator_slip'] = 'original exceeds the step budget (%s/%s) in %s' % (a['outcome'][0], b['outcome'][0], src)
       continue
     if a['outcome'][0] == 'exc' and a['outcome'][1] not in ('E1', 'AssertionError'):
       # the grammar is total apart from explicit raise/assert: an implicit exception in the
@@ -999,7 +1016,7 @@ class Gen(object):
       kinds.append(('jump', 1))
     if 'assert' in self.lazy:
       kinds.append(('assert', 3))
-    if 'lam' in self.lazy:
+    if 'lam' in self.lazy and not in_def:
       kinds.append(('retlam', 1))
     k = self.weighted(kinds)
     if k == 'assign':
@@ -1022,6 +1039,8 @@ class Gen(object):
     if k == 'del':
       return self.accepted(lambda: 'del ' + ', '.join('%s.b[%s]' % (self.base(1, scope), self.expr(scope, 0))
                                                      for _ in range(self.pick([1, 1, 2]))))
+    if k == 'ret' and in_def:
+      return self.accepted(lambda: 'return %s' % self.expr(scope), fallback='return p')
     if k == 'ret':
       return self.accepted(lambda: self.pick(['return %s' % self.expr(scope), 'return %s' % self.coll(self.max_depth - 1, scope),
                                               'return %s, %s' % (self.expr(scope), self.expr(scope))]))
@@ -1138,16 +1157,15 @@ class Gen(object):
         out += sub()
       return out
     if k == 'while':
+      # one counter per nesting level (an inner loop left by break must not disturb the outer count)
+      w = [c for c in ('w', 'v', 'u', 'n') if c not in scope][0]
+      out.append('%s = %s' % (w, self.pick(['0', '1', '2', '3'])))
       if 'while' in self.lazy and self.pct(60):
-        out.append('w = %s' % self.pick(['0', '1', '2', '3']))
-        out.append(self.pick(['while t(w):', 'while (w - t(0)):', 'while o.b[w + 3]:', 'while t(t(w)):']))
-        out.append('  w = w - 1')
-        out += sub(scope + ['w'], True)
-        return out
-      out.append('w = %s' % self.pick(['0', '1', '2', '3']))
-      out.append('while w:')
-      out.append('  w = w - 1')
-      out += sub(scope + ['w'], True)
+        out.append(self.pick(['while t(%s):', 'while (%s - t(0)):', 'while o.b[%s + 3]:', 'while t(t(%s)):']) % w)
+      else:
+        out.append('while %s:' % w)
+      out.append('  %s = %s - 1' % (w, w))
+      out += sub(scope + [w], True)
       return out
     # nested def
     out.append('def g(p):')
